@@ -172,6 +172,12 @@ def cases():
     add("same-origin:helper-twice-same-target", "reject", MK + ["mk(s, self.d)", "mk(s, 1)"])
     add("same-origin:seq-helper-twice-same-target", "reject", MKS + ["mks(s, self.d)", "mks(s, 1)"])
     add("same-origin:helper+explicit", "reject", MK + ["mk(s, self.d)"], fn(SEQ, "p2", "nonlocal s", "s <<= 1"))
+    # distinct objects that were given the SAME name by the user (a helper called twice): each keeps its own declaration
+    # and its own single driver in the emitted architecture (VHDL identifiers are case-insensitive)
+    MKN = ["def stage(nm, src):", "    r = Signal[Unsigned[4]](0, name=nm)", "    @std.sequential(clk)", "    def stage_proc():", "        r.next = src", "    return r"]
+    for tag, n1, n2 in (("lower", "stage_reg", "stage_reg"), ("mixed-case", "stageReg", "stageReg"), ("upper", "STAGE_REG", "STAGE_REG"), ("case-insensitive-pair", "stageReg", "stagereg"), ("like-own-local", "S2", "s2")):
+        add("same-name:" + tag, "accept", MKN + [f"q1 = stage('{n1}', self.d)", f"q2 = stage('{n2}', q1)"], fn(CON, "c3", "nonlocal s", "s <<= q2"), fn(CON, "c4", "self.o2 <<= s2"))
+    add("same-name:variables-mixed-case", "accept", ["def acc(nm, src, dst):", "    a = Variable[Unsigned[4]](0, name=nm)", "    @std.sequential(clk)", "    def acc_proc():", "        nonlocal a", "        a @= a + src", "        dst.next = a", "acc('accReg', self.d, s)", "acc('accReg', s, s2)"], fn(CON, "c4", "self.o2 <<= s2"))
     add("same-origin:loop-same-target", "reject", ["for k in range(2):", "    @std.sequential(clk)", "    def looped():", "        s.next = self.d + k"])
     add("same-origin:loop-disjoint-slices", "reject", ["for k in range(2):", "    @std.concurrent", "    def looped():", "        sb[2 * k + 1 : 2 * k] <<= self.d[1:0]"], fn(CON, "c3", "self.o2 <<= sb.unsigned"))
     add("same-origin:concurrent_assign-twice", "reject", ["std.concurrent_assign(s, self.d)", "std.concurrent_assign(s, Unsigned[4](1))"])
